@@ -9,6 +9,7 @@ import Firefly.Proof.AmlPrint
 import Firefly.Proof.AmlStrict
 import Firefly.Proof.AmlStrictTot
 import Firefly.Proof.AmlFirstShapes
+import Firefly.Proof.AmlPrefixBlock
 /-!
 # C12 — Malformed AML is rejected with an error, never a crash, hang or stray pointer
 
@@ -292,12 +293,15 @@ What is proved towards them, each piece named for what it is:
 | `resolve_loop_no_panic_WF` | `resolveLoopPasses` (merge + relocate until stable) | never `.panic`, `MergeInv` (so `C13.WF`) kept; number of passes / fuel NOT bounded |
 | `merge_no_panic_WF` | `mergeScopeDirectives` (moves contents, frees the directive) | never `.panic`, `C13.WF` kept, only live slots freed; under `MergeInv` (shape of `Scope` directives: hypothesis, kept); fuel bound NOT proved |
 
+| `parse_prefix_first_block` | the prefix COMPOSED with the strict pass: whichever deferred block `parseDeferredBlocks` reaches first | in the state the prefix hands over (if it did not fail), for EVERY attached object with a deferred table row: `parseDeferred` never panics, keeps `C13.WF`, and returns with fuel ≥ 16·len+15 — the hypotheses of `deferred_block_total` are DERIVED (methods complete: kept by the first pass, `connectNamedObjArgs`, merge and relocate; block object under a non-`Method`; empty scope stack); extra pool hypotheses: every old `Method` complete, room for 32 objects per table byte |
+| `parse_no_panic_unless_block_succeeds` | the WHOLE of `ParseAML` (`init` … `connectNonNamedObjArgs`) | never `.panic`, and the pool returned is `C13.WF` — for every run in which no deferred block is parsed successfully (the prefix fails, or there is no deferred block, or the first one the walk reaches fails); `CallShape` for `resolveMethodCalls` DERIVED from the first pass; same pool hypotheses as `parse_prefix_first_block`; if a block succeeds the walk behind it is open |
 | `deferred_block_no_panic_WF` | `parseDeferred(obj)`: the strict re-parse (`parseModeAllBlocks`) of ONE deferred block — `parseObjectArgs`, `parseArgs`, `parseArg`, `parseStrictTermArg`, `parseTarget`, `parseNextObject`, `parseNamePathOrMethodCall` with method calls, `parseFieldElements` | never `.panic`, `C13.WF` kept after success and failure, old objects kept under their parents; on success every `Method` has its flags again; under the hypotheses: every `Method` has its flags or is unnamed and encloses neither the root nor the block (what a rejected earlier table may leave behind), no `Method` on the scope stack, the block object attached under a non-`Method` (hypotheses, evaluated by the oracle in front of every block); fuel NOT bounded |
 | `deferred_block_total` | the same `parseDeferred(obj)` with fuel ≥ 16·len + 15 | total: returns (no `.panic`, no `.outOfFuel`), same guarantees, same hypotheses |
 | `deferred_block_checks_sound` | the oracle's executable checks imply the hypotheses of `deferred_block_no_panic_WF` | the checks run on the model's walk in front of every `parseDeferred` of every replayed input |
 
-Not covered by any theorem: the export of the shape hypotheses `CallShape` and `MethodsHaveFlags` by the
-first pass (`MergeInv` is exported: `parse_prefix_no_panic_WF`), the walk `parseDeferredBlocks` over all blocks (that the hypotheses of one block hold again for the next
+Not covered by any theorem: the export of the shape hypothesis `CallShape` by the first pass (`MergeInv` is
+exported: `parse_prefix_no_panic_WF`; `MethodsHaveFlags` and the block facts are, for the first block and pools without
+incomplete methods: `parse_prefix_first_block`), the walk `parseDeferredBlocks` over all blocks (that the hypotheses of one block hold again for the next
 one; the per-block theorem gives `MethodsHaveFlags`, the scope stack and `C13.WF` back, not the facts about the next
 block object), the fuel bound of the tree walks, and the composition into `parseAML`.  These
 are decided per input by the oracle on the real code and by the model-vs-implementation correspondence.
@@ -429,11 +433,11 @@ theorem merge_no_panic_WF (d : Bytes) (fuel : Nat) (s : AmlParser.PState) (h : A
     AmlParser.NPs (AmlParser.mergeScopeDirectives d fuel 0) s
       (fun _ s' => AmlParser.MI d s' ∧ s'.tree.pool.size = s.tree.pool.size ∧
         ∀ x, C13.live s'.tree x = true → C13.live s.tree x = true) :=
-  ((AmlParser.merge_np d fuel).1 (s0 := s) (X0 := 0) (Mvd := fun _ => False) 0 h.tp.wf h (AmlParser.Ctx.refl s 0) h.tp.root
-    (h.tp.wf.anc_self h.tp.root)).mono
+  ((AmlParser.merge_np d fuel).1 (s0 := s) (X0 := 0) (Mvd := fun _ => False) 0 h.tp.wf (AmlParser.MIJ.ofMI h)
+    (AmlParser.Ctx.refl s 0) h.tp.root (h.tp.wf.anc_self h.tp.root)).mono
     (fun _ _ hq => by
       obtain ⟨q1, _, _, _, q4⟩ := hq
-      exact ⟨q1, q4.shr.size, q4.shr.live⟩)
+      exact ⟨q1.toMI, q4.shr.size, q4.shr.live⟩)
 
 /-- **The resolve loop never panics and keeps the pool well-formed**: `resolveLoopPasses` — `mergeScopeDirectives`
 and `relocateNamedObjects` in turn until both report no change or one fails — under `MergeInv`, which both passes
@@ -444,7 +448,7 @@ theorem resolve_loop_no_panic_WF (d : Bytes) (fuel n : Nat) (s : AmlParser.PStat
     AmlParser.NPs (AmlParser.resolveLoopPasses d fuel n) s
       (fun _ s' => AmlParser.MI d s' ∧ s'.tree.pool.size = s.tree.pool.size ∧
         ∀ x, C13.live s'.tree x = true → C13.live s.tree x = true) :=
-  (AmlParser.resolveLoopPasses_np d fuel n h).mono (fun _ _ hq => ⟨hq.1, hq.2.size, hq.2.live⟩)
+  (AmlParser.resolveLoopPasses_np d fuel n (AmlParser.MIJ.ofMI h)).mono (fun _ _ hq => ⟨hq.1.toMI, hq.2.size, hq.2.live⟩)
 
 /-- **The tree passes between the first pass and the deferred blocks never panic and keep the pool well-formed**
 (`tree_passes`, stage 3 as `ParseAML` runs it): `connectNamedObjArgs(0)`, then — unless it failed — the resolve
@@ -454,7 +458,7 @@ theorem tree_passes_no_panic_WF (d : Bytes) (fuel : Nat) (s : AmlParser.PState) 
     AmlParser.NPs (AmlParser.treePasses d fuel) s
       (fun _ s' => AmlParser.MI d s' ∧ s'.tree.pool.size = s.tree.pool.size ∧
         ∀ x, C13.live s'.tree x = true → C13.live s.tree x = true) :=
-  (AmlParser.treePasses_np d fuel h).mono (fun _ _ hq => ⟨hq.1, hq.2.size, hq.2.live⟩)
+  (AmlParser.treePasses_np d fuel (AmlParser.MIJ.ofMI h)).mono (fun _ _ hq => ⟨hq.1.toMI, hq.2.size, hq.2.live⟩)
 
 /-- **The shape hypotheses are checked on every replayed input.**  `MergeInv` and `CallShape` are not derived
 from the first pass by a theorem; instead the replay driver evaluates them on the model's run of every input
@@ -502,12 +506,13 @@ theorem parse_prefix_no_panic_WF (d : Bytes) (hd : d.size + 268435456 ≤ 429496
     (13 * d.size + 13 ≤ fuel → ∃ r s1, AmlParser.firstPass d fuel handle s = .ok (r, s1) ∧
       (r ≠ .failed → AmlParser.MI d s1)) := by
   refine ⟨AmlParser.F.parseAML_prefix d fuel handle, ?_, ?_⟩
-  · refine (AmlParser.F.parsePrefix_np hd ht hsz fuel handle hroot hfreed hhandle).mono ?_
+  · refine (AmlParser.F.parsePrefix_np (jf := False) hd ht hsz fuel handle hroot hfreed hhandle (fun hb => hb.elim)).mono ?_
     intro b s' ⟨tp, hmi⟩
-    exact ⟨⟨tp.wf, tp.root, tp.info⟩, hmi⟩
+    exact ⟨⟨tp.wf, tp.root, tp.info⟩, fun hb => (hmi hb).1.toMI⟩
   · intro hfuel
     obtain ⟨r, s1, e, _⟩ := AmlParser.G.firstPass_tot hd ht hsz fuel handle hfuel
-    exact ⟨r, s1, e, ((AmlParser.F.firstPass_mi hd ht hsz fuel handle hroot hfreed hhandle).2 r s1 e).2⟩
+    exact ⟨r, s1, e, fun hr =>
+      (((AmlParser.F.firstPass_mi (jf := False) hd ht hsz fuel handle hroot hfreed hhandle (fun hb => hb.elim)).2 r s1 e).2.2 hr).1.toMI⟩
 
 /-- the pool hypotheses of `parse_prefix_no_panic_WF` are decidable (`AmlParser.poolHypB`; the replay driver counts
 on how many tables of every run they hold: statistics `prefix_pool_hyp_holds` / `prefix_pool_hyp_fails`) -/
@@ -538,6 +543,100 @@ example : ∀ t t1 n t2, AmlParser.defaultTree 0 = .ok t → t.newObject opIntNa
   rw [ht] at h
   simp only [h1, h2, Bool.and_eq_true, Bool.not_eq_true'] at h
   exact ⟨AmlParser.G.treeG_of_b h.1.1, h.1.2, h.2⟩
+
+/-- **`ParseAML` up to and including the first deferred block** (`parse_prefix_first_block`: `parse_prefix_no_panic_WF`
+composed with `deferred_block_no_panic_WF` / `deferred_block_total`, the hypotheses of the latter DERIVED).
+
+`parseDeferredBlocks` walks the tree from the root and calls `parseDeferred(obj)` on the objects whose table row carries
+`pOpFlagDeferParsing` (Buffer, Package, If, While, BankField, …); until the first such call the walk changes nothing.
+For every table `d` (length + 2^28 ≤ 2^32), every handle and fuel, from any well-formed pool with room for 32 objects
+per table byte that satisfies the pool hypotheses of `parse_prefix_no_panic_WF` and in which every `Method` left by
+earlier tables is complete (name object, flags constant, scope block), every unresolved name-or-call object is attached
+and holds the `[]byte` of its path, and the root carries the table row of a scope block (`AmlParser.MInv`,
+`AmlParser.F.CSA`; decidable: `AmlParser.methodsOKB`, true of the default pool): if the
+prefix does not fail, the state `s'` it hands to `parseDeferredBlocks` satisfies `MergeInv`, and for EVERY live, attached
+object `obj` of `s'` with a deferred table row — in particular the one the walk reaches first — and every fuel:
+
+* `parseDeferred(obj)` from `s'` never ends in `.panic`, whatever it returns the pool is `C13.WF` again (`FP`), every
+  object that existed is still live under the same parent, and on success every `Method` has its flags and the scope
+  stack is as before;
+* with fuel ≥ 16·len + 15 it returns (no `.outOfFuel`).
+
+What is proved for this: the first pass leaves every `Method` complete (it reads the name, the flags and opens the
+block; tracked argument by argument like the `Scope` directives), and `connectNamedObjArgs`, `mergeScopeDirectives` and
+`relocateNamedObjects` keep every `Method` complete (`AmlParser.MIJ`: what they move, free or rename is never one of the
+three arguments of a method, and nothing is hung under a method or its first two arguments); they leave the reader and
+the (empty) scope stack alone; an object with a deferred row is neither a `Method` nor one of a method's three arguments.
+Still open: that the hypotheses hold again for the SECOND block (the walk), `CallShape`, the fuel of the tree passes. -/
+theorem parse_prefix_first_block (d : Bytes) (hd : d.size + 268435456 ≤ 4294967296) (s : AmlParser.PState)
+    (ht : AmlParser.G.TreeG s.tree) (hsz : s.tree.pool.size + 32 * d.size + 16 ≤ 4294967295) (fuel handle : Nat)
+    (hroot : C13.P s.tree 0 = C13.INV ∧ (C13.slot s.tree 0).opcode = opIntScopeBlock)
+    (hfreed : ∀ x, C13.live s.tree x = false → (C13.slot s.tree x).name.b0 = 0)
+    (hhandle : ∀ x, C13.live s.tree x = true → (C13.slot s.tree x).opcode = opScope →
+      (C13.slot s.tree x).tableHandle ≠ handle)
+    (hmethods : AmlParser.MInv s ∧ AmlParser.F.CSA s) :
+    AmlParser.NPs (AmlParser.F.parsePrefix d fuel handle) s (fun b s' => b = true → AmlParser.MI d s' ∧
+      ∀ obj, C13.live s'.tree obj = true → C13.P s'.tree obj ≠ C13.INV →
+        AmlParser.deferB (C13.slot s'.tree obj).infoIndex = true → ∀ fuel2,
+        AmlParser.NPs (AmlParser.parseDeferred d fuel2 obj) s' (fun res s2 => AmlParser.G.FP d s2 ∧
+          (∀ x, C13.live s'.tree x = true → C13.live s2.tree x = true ∧ C13.P s2.tree x = C13.P s'.tree x) ∧
+          (res = .ok → AmlParser.S.MS (fun _ => False) none s2.tree ∧ s2.scopeStack = s'.scopeStack)) ∧
+        (16 * d.size + 15 ≤ fuel2 → ∃ res s2, AmlParser.parseDeferred d fuel2 obj s' = .ok (res, s2) ∧
+          C13.WF s2.tree)) := by
+  refine (AmlParser.F.prefix_block hd ht hsz fuel handle hroot hfreed hhandle hmethods).mono ?_
+  intro b s' hq hb
+  obtain ⟨hmi, hall⟩ := hq hb
+  refine ⟨hmi, fun obj hl hp hdf fuel2 => ⟨(hall obj hl hp hdf fuel2).1, fun hf => ?_⟩⟩
+  obtain ⟨res, s2, e, h2, _⟩ := (hall obj hl hp hdf fuel2).2 hf
+  exact ⟨res, s2, e, h2.tree.wf⟩
+
+/-- **`ParseAML` never panics unless a deferred block is parsed successfully** (`parse_no_panic_unless_block_succeeds`:
+the first theorem about the whole of `parseAML`).  For every table `d` (length + 2^28 ≤ 2^32), every handle and fuel,
+from any pool that satisfies the hypotheses of `parse_prefix_first_block`: every run of `parseAML`
+
+* ends in `.outOfFuel` (the model's fuel; never in `.panic`), or
+* returns — `true` or `false` — with a pool that is `C13.WF`, has a live root and table rows in range, or
+* is a run in which the prefix succeeded and, in the state `s'` it handed to `parseDeferredBlocks`, some attached
+  object with a deferred table row can be parsed successfully by `parseDeferred` (`AmlParser.F.BlockSucceeds`) — then
+  the walk over the blocks behind it is not covered by a theorem.
+
+So the crash-freedom half of C12 is a theorem for every table that `ParseAML` rejects in the first pass, in
+`connectNamedObjArgs`, in the resolve loop or in its first deferred block, and for every table without a deferred block
+(no Buffer / Package / If / While / BankField … object of its own): for those `parseDeferredBlocks` is a walk that
+changes nothing (`AmlParser.F.walk_np`), `resolveMethodCalls` runs under `CallShape` — which is now DERIVED: the
+first pass creates every name-or-call object with the `[]byte` of its path and the tree passes keep it — and
+`connectNonNamedObjArgs` under the tree invariant. -/
+theorem parse_no_panic_unless_block_succeeds (d : Bytes) (hd : d.size + 268435456 ≤ 4294967296) (s : AmlParser.PState)
+    (ht : AmlParser.G.TreeG s.tree) (hsz : s.tree.pool.size + 32 * d.size + 16 ≤ 4294967295) (fuel handle : Nat)
+    (hroot : C13.P s.tree 0 = C13.INV ∧ (C13.slot s.tree 0).opcode = opIntScopeBlock)
+    (hfreed : ∀ x, C13.live s.tree x = false → (C13.slot s.tree x).name.b0 = 0)
+    (hhandle : ∀ x, C13.live s.tree x = true → (C13.slot s.tree x).opcode = opScope →
+      (C13.slot s.tree x).tableHandle ≠ handle)
+    (hmethods : AmlParser.MInv s ∧ AmlParser.F.CSA s) :
+    (∀ e, AmlParser.parseAML d fuel handle s = .error e → e = .outOfFuel ∨
+      ∃ s', AmlParser.F.parsePrefix d fuel handle s = .ok (true, s') ∧ AmlParser.F.BlockSucceeds d fuel s') ∧
+    (∀ b s2, AmlParser.parseAML d fuel handle s = .ok (b, s2) →
+      (C13.WF s2.tree ∧ C13.live s2.tree 0 = true ∧
+        ∀ i, C13.live s2.tree i = true → (opFlags (C13.slot s2.tree i).infoIndex).isSome = true) ∨
+      ∃ s', AmlParser.F.parsePrefix d fuel handle s = .ok (true, s') ∧ AmlParser.F.BlockSucceeds d fuel s') := by
+  obtain ⟨h1, h2⟩ := AmlParser.F.parseAML_np hd ht hsz fuel handle hroot hfreed hhandle hmethods
+  refine ⟨h1, fun b s2 e => ?_⟩
+  rcases h2 b s2 e with tp | hb
+  · exact Or.inl ⟨tp.wf, tp.root, tp.info⟩
+  · exact Or.inr hb
+
+/-- the method hypothesis of `parse_prefix_first_block` is decidable (the replay driver counts on how many tables of
+every run it holds: statistics `prefix_methods_hyp_holds` / `prefix_methods_hyp_fails`), and the default pool satisfies
+it (it holds no `Method`) -/
+theorem prefix_method_check_sound (s : AmlParser.PState) (h : AmlParser.methodsOKB s.tree = true) :
+    AmlParser.MInv s ∧ AmlParser.F.CSA s :=
+  AmlParser.F.methodsOK_of_b h
+example : ∀ t, AmlParser.defaultTree 0 = .ok t → AmlParser.methodsOKB t = true := by
+  intro t ht
+  have h : (match AmlParser.defaultTree 0 with
+    | .ok t => AmlParser.methodsOKB t | .error _ => false) = true := by decide +kernel
+  rw [ht] at h
+  exact h
 
 /-- **`PrettyPrint` is total on well-formed pools** (`C12.print_total`, for the model of `toString`'s panic sites
 that the replay oracle runs, `Replay.Aml.printWalk`: the nil dereferences and dynamic type assertions of
